@@ -786,3 +786,66 @@ def pathological():
           ("dot-eof", b"a."), ("typedef-eof", b"typedef real"), ("enum-eof", b"enum E {"), ("class-eof", b"class A : "), ("goal-eof", b"goal g = new"),
           ("bom", b"\xef\xbb\xbfreal x;"), ("crlf", b"real x;\r\nx == 1;\r\n"), ("cr-only", b"real x;\rx == 1;\r")]
     return P
+
+
+# ------------------------------------------------------------------------------------------------
+# C18: programs with a SEMANTIC error (they parse): the planner must reject them with a reported error
+# ------------------------------------------------------------------------------------------------
+def semantic_errors(rng, extra=0):
+    """-> list of (kind, program text). Expected outcome of read(): an exception derived from std::exception other than
+    bad_alloc (reported by main.cpp), in the assertion build AND in the NDEBUG build; never a signal, a hang, or acceptance."""
+    P = []
+    zeros = [("lit-int", "", "0"), ("lit-real", "", "0.0"), ("const-var", "real z = 0.0; ", "z"), ("const-int-var", "int z = 0; ", "z"),
+             ("expr", "", "(1 - 1)"), ("expr-real", "", "(2.0 * 0)"), ("expr-mixed", "", "(3 - 3.0)"), ("neg-zero", "", "-0.0")]
+    nums = [("lit", "", "8"), ("real-lit", "", "3.0"), ("var", "real x; ", "x"), ("expr", "real x; ", "(x + 1.0)")]
+    others = ["2.0", "2", "(1 + 1)", "0.5", "4"]
+    ctxs = [("field", "real y = %s;"), ("eq", "real y; y == %s;"), ("leq", "%s <= 1;"), ("int-field", "int c = %s;")]
+    for arity in (2, 3, 4):
+        for pos in range(1, arity):
+            for zk, zdecl, z in zeros:
+                nk, ndecl, n = nums[rng.randrange(len(nums))] if extra == 0 and arity > 2 and zk not in ("lit-real", "const-int-var") else nums[(pos + arity) % len(nums)]
+                for (nk2, ndecl2, n2) in ([(nk, ndecl, n)] if not extra else nums):
+                    ops = [n2] + [rng.choice(others) for _ in range(arity - 1)]
+                    ops[pos] = z
+                    ck, ctx = ctxs[(arity + pos + len(P)) % len(ctxs)]
+                    P.append(("div0:%d-ary:pos%d:%s:%s:%s" % (arity, pos, zk, nk2, ck), ndecl2 + zdecl + ctx % " / ".join(ops)))
+    # a zero divisor nested in a larger expression, and a division whose divisor is a division by zero
+    P += [("div0:nested", "real x; real y = 1.0 + x * (2.0 / 4.0 / 0.0) - 3;"), ("div0:divisor-is-div0", "real y = 1 / (1 / 0);"),
+          ("div0:in-cost", "real x; { x >= 1; } or { x <= 0; } [1 / 0]"), ("div0:in-method", "real f(real a) { return a / 2 / 0; } real v; v == f(1.0);"),
+          ("div0:in-ctor", "class A { real w; A(real k) : w(k / 3.0 / 0.0) {} } A a = new A(2.0);"),
+          ("div0:in-predicate", "predicate P(real a) { a / 2.0 / 0 >= 1; } goal g = new P(a:1.0);")]
+    nl = ["x * y", "x * y * 2", "2 * x * y", "2.0 * x * 3.0 * y", "1 / x", "x / y", "3 / 2 / x", "3.0 / x / 2", "x * (y + 1)", "(x + 1) * (y - 2)",
+          "x * x", "(x + y) / (x - y)", "x / (1 + y)", "-x * y", "x * -y * 1"]
+    for i, e in enumerate(nl):
+        ck, ctx = ctxs[i % 3]
+        P.append(("nonlinear:%s" % e.replace(" ", ""), "real x; real y; " + (ctx % e if ck != "field" else "real w = %s;" % e)))
+    decl0 = "real x; real y; bool b; bool c; string s = \"s\"; "
+    ill = ["x | y;", "x & b;", "b & x;", "!x;", "x -> b;", "b -> x;", "x ^ y;", "x ^ b;", "real w = b + 1;", "real w = 1 + b;", "real w = b * 2;", "real w = -b;",
+           "b < 1;", "1 >= b;", "real w = b / 2;", "real w = 2 / b;", "real w = s + 1;", "s < 1;", "s | b;", "b | s;", "x;", "1;", "s;", "x + 1;", "a;",
+           "real w = a + 1;", "a | b;", "a < 1;", "real w = -a;", "!a;", "real w = new A() + 1;", "{ x >= 1; } or { x <= 0; } [b]", "{ x >= 1; } or { x <= 0; } [x]",
+           "x < 3.0 | y >= 5.0;", "x < (3.0 | y) ;", "b == (x | y);", "real w = (b & c) + 1;", "bool d = x + 1; d;", "bool d = 1; d | b;", "real w = b; w >= 1;",
+           "x == (b -> c) + 1;", "(x | y) == b;", "real w = +b; w + 1 >= 0;", "real w = (A) b + 1;"]
+    for e in ill:
+        decl = decl0 + ("class A {} A a = new A(); " if re.search(r"\ba\b|new A", e) else "")
+        P.append(("ill-typed:%s" % e.replace(" ", "")[:24], decl + e))
+    names = [("undeclared-variable", "x == 1;"), ("undeclared-in-expr", "real y; y == x + 1;"), ("unknown-type", "A a;"), ("unknown-type-new", "real x; x == 1; B b = new B();"),
+             ("unknown-predicate", "goal g = new P();"), ("unknown-field", "class A {} A a = new A(); a.f == 1;"), ("unknown-function", "real v; v == f(1);"),
+             ("ctor-arity", "class A { A(real k) {} } A a = new A(1, 2);"), ("ctor-arity0", "class A { A(real k) {} } A a = new A();"),
+             ("unknown-formula-arg", "predicate P(real a) { } goal g = new P(zz:1);"), ("unknown-scope", "predicate P() { } goal g = new q.P();"),
+             ("unknown-base", "class A : B {}"),
+             ("method-arity", "real f(real a) { return a; } real v; v == f(1, 2);"), ("assign-unknown", "q.x = 1;"), ("unknown-enum-ref", "enum E {\"a\"} | F; E e;"),
+             ("unknown-typedef-prim", "typedef real 1 T; U u;"), ("predicate-sup-unknown", "predicate P() : Q { }")]
+    P += [("name:" + k, t) for k, t in names]
+    return P
+
+
+def unsolvable_programs():
+    """valid programs without solution (or inconsistent at reading time): they must end with the verdict, never with a signal"""
+    return [("ctor-body-inconsistent", "class A { A() { 1 >= 2; } } A a = new A();"),
+            ("ctor-arg-inconsistent", "class A { real w; A(real k) : w(k) { w >= 1; } } A a = new A(0.0);"),
+            ("field-init-inconsistent", "class A { real w = 1.0; A() { w >= 2; } } A a = new A();"),
+            ("nested-ctor-inconsistent", "class B { B() { false; } } class A { B b = new B(); } A a = new A();"),
+            ("bounds", "real x; x >= 1; x <= 0;"), ("bool", "bool b; b; !b;"), ("false", "false;"), ("strict", "real x; x < 1; x > 1;"),
+            ("goal-rule-inconsistent", "predicate P(real a) { a >= 1; a <= 0; } goal g = new P();"),
+            ("method-body-inconsistent", "void f(real a) { a >= 1; a <= 0; } real v; f(v);"),
+            ("string-neq", "\"a\" == \"b\";")]
